@@ -65,6 +65,8 @@ Proof. exact rise_first_is_first_min. Qed.
     failure on an empty array included, wherever rise / fall is defined *)
 Theorem C01_rise_first_equiv : forall a u, p_rise a = Ok u -> p_first_index true row_le a = p_first None u.
 Proof. exact rise_first_equiv. Qed.
+Theorem C01_fall_first_equiv : forall a u, p_fall a = Ok u -> p_first_index true row_ge a = p_first None u.
+Proof. exact fall_first_equiv. Qed.
 Theorem C01_rise_last_equiv : forall a u, p_rise a = Ok u -> p_last_index row_le a = p_last None u.
 Proof. exact rise_last_equiv. Qed.
 Theorem C01_fall_last_equiv : forall a u, p_fall a = Ok u -> p_last_index row_ge a = p_last None u.
@@ -74,6 +76,20 @@ Theorem C01_transposeN_compose : forall x y st out, (0 <= x)%Z -> (0 <= y)%Z ->
    on_top (fun a => Ok (Nat.iter (Z.to_nat y) p_transpose a)) st') = Ok out ->
   on_top (fun a => Ok (Nat.iter (Z.to_nat (x + y)) p_transpose a)) st = Ok out.
 Proof. exact transposeN_compose. Qed.
+
+(** instances with tied extremes (ascending with the maximum repeated, descending with both repeated,
+    rank 2 with a repeated maximal row): fused = unfused, and the values are the leftmost / rightmost
+    extremal rows.  The marks of an implementation value are not an input of the model. *)
+Example C01_tied_extremes :
+  let up := Prims.Arr TNum [4%nat] [ENum 1; ENum 2; ENum 3; ENum 3] in
+  let dn := Prims.Arr TNum [4%nat] [ENum 3; ENum 3; ENum 1; ENum 1] in
+  let r2 := Prims.Arr TNum [3%nat; 2%nat] [ENum 3; ENum 4; ENum 1; ENum 2; ENum 3; ENum 4] in
+  map (fun a => (run [nFall; nFirst] [a], run [nRise; nLast] [a], run [nRise; nFirst] [a], run [nFall; nLast] [a])) [up; dn; r2] =
+  map (fun a => (run [nFirstMaxIndex] [a], run [nLastMaxIndex] [a], run [nFirstMinIndex] [a], run [nLastMinIndex] [a])) [up; dn; r2]
+  /\ run [nFirstMaxIndex] [up] = Ok [num 2] /\ run [nLastMaxIndex] [up] = Ok [num 3]
+  /\ run [nFirstMinIndex] [dn] = Ok [num 2] /\ run [nLastMinIndex] [dn] = Ok [num 3]
+  /\ run [nFirstMaxIndex] [r2] = Ok [num 0] /\ run [nLastMaxIndex] [r2] = Ok [num 2].
+Proof. exact tied_extremes. Qed.
 
 (** records of repaired defects (models of the code before the fix commits) *)
 Theorem C01_first_rise_empty_refuted_pre :
@@ -113,6 +129,7 @@ Print Assumptions C01_reverse_last_is_first.
 Print Assumptions C01_rise_first_is_first_min.
 Print Assumptions C01_transposeN_compose.
 Print Assumptions C01_rise_first_equiv.
+Print Assumptions C01_fall_first_equiv.
 Print Assumptions C01_rise_last_equiv.
 Print Assumptions C01_fall_last_equiv.
 Print Assumptions C01_first_rise_empty_refuted_pre.
